@@ -278,7 +278,7 @@ UNITS.append(instantiate_unit("C16"))
 VERIFIED_CALLEES = ("self.topological_sort",)
 LEVEL = "other"
 TECHNIQUE = "contract-based deductive verification: VCs generated from the real AST (loop invariant, recursion by contract, ghost rank), discharged by z3/cvc5; bounded run-time contract checking as stand-in for the parts not under proof"
-LEVEL_TEXT = 'Proved for every graph of every size (partial correctness): DirectedGraph.topological_sort / get_topological_order return a permutation of the nodes in which every edge goes forward, raise ValueError only if the graph has a cycle, and never index out of range (loop invariant, recursion by contract, ghost finish rank); add_edge for every node list. Verified by complete case analysis: ActionLink.reorder (<= 3 order keys x <= 3 components, keys and dests arbitrary strings: first matching key decides, declaration order inside a group, nothing lost), instantiation_order (edges source -> target and nested target -> enclosing target), apply_instantiation_links (a due link applied exactly once, also for attribute values None / 0; final pass in the reordered order), instantiate_classes (nothing remembered on the parser), ActionLink.__init__ (cycle check at link creation; a refused link leaves the parser as it was - this found that a refused cyclic link corrupted the parser; fixed). Bounded only: the end-to-end construction order through real parsers (every digraph <= 4/5 nodes; every link graph over <= 3/4 class groups in every declaration order).'
+LEVEL_TEXT = "Proved for every graph of every size (partial correctness): DirectedGraph.topological_sort / get_topological_order return a permutation of the nodes in which every edge goes forward, raise ValueError only if the graph has a cycle, and never index out of range (loop invariant, recursion by contract, ghost finish rank); add_edge for every node list. Verified by complete case analysis: ActionLink.reorder (<= 3 order keys x <= 3 components, keys and dests arbitrary strings: first matching key decides, declaration order inside a group, nothing lost), instantiation_order (edges source -> target and nested target -> enclosing target), apply_instantiation_links (a due link applied exactly once, also for attribute values None / 0; final pass in the reordered order), instantiate_classes (nothing remembered on the parser), ActionLink.__init__ (cycle check at link creation; a refused link leaves the parser as it was - this found that a refused cyclic link corrupted the parser; fixed). Also: find_subclass_action_or_class_group, get_nested_links, ActionTypeHint.instantiate_classes (every value of the option instantiated once, in order, with the option's own settings). Bounded only: the end-to-end construction order through real parsers (every digraph <= 4/5 nodes; every link graph over <= 3/4 class groups in every declaration order)."
 LEVEL_NOTE = "under construction"
 EXPLANATION = "under construction"
 ASSUMPTIONS = [
